@@ -217,12 +217,9 @@ func (c *EventCache) getEventKey(event *Event) string {
 		idx := slices.IndexFunc(event.Tags, func(t Tag) bool {
 			return len(t) >= 1 && t[0] == "d"
 		})
-		if idx < 0 {
-			return ""
-		}
-
+		// an addressable event without a d tag is addressed by the empty d value
 		d := ""
-		if len(event.Tags[idx]) > 1 {
+		if idx >= 0 && len(event.Tags[idx]) > 1 {
 			d = event.Tags[idx][1]
 		}
 
